@@ -282,6 +282,7 @@ class Gen:
         self.identity_calls = set()     # wrappers that do not change the bytes (X::from_le_bytes, .as_le_bytes(), ...)
         self.big = None                 # big-integer mode: dict(be=, into=, gen_params=set(), prime_params=set()) or None
         self.loop_depth = 0             # >0 while translating a `for` body: `return e` leaves the loop with (inl e)
+        self.opt_calls = {}             # rust path -> (gallina function returning option R, type label of R): other translated functions
         self.ctor_calls = {}            # rust path of a tuple variant / constructor -> gallina constructor (applied to its arguments)
         self.str_vars = set()           # gallina names of values of type &str (lists of scalar values)
         self.enums = {}                 # rust path of a unit variant -> gallina constructor
@@ -369,6 +370,15 @@ class Gen:
                 if i == len(args): return k("(res_view (%s %s))" % (g_, " ".join(acc)), "resopt")
                 return self.expr(args[i], lambda t, tt: gor(i + 1, acc + [t]))
             return gor(0, [])
+        if kind == "fncall" and e[1] in self.opt_calls:
+            g_, rty = self.opt_calls[e[1]]
+            args = e[2]
+            def goo(i, acc):
+                if i == len(args):
+                    v_ = self.fresh("o")
+                    return "match %s %s with None => None | Some %s =>\n  %s end" % (g_, " ".join(acc), v_, k(v_, rty))
+                return self.expr(args[i], lambda t, tt: goo(i + 1, acc + [t]))
+            return goo(0, [])
         if kind == "fncall" and e[1] in self.ctor_calls:
             args = e[2]
             def gok(i, acc):
@@ -559,6 +569,8 @@ class Gen:
                     if not (isinstance(ta, tuple) and ta[0] == "arr"): raise Untranslatable(".len() of a non-array")
                     return k("(N.of_nat (length %s))" % a, "usize")
                 return self.expr(recv, kn_)
+            if name == "into" and not args and want is None and self.lhs_key(recv) in self.env and self.env[self.lhs_key(recv)][1] == "str":
+                return self.expr(recv, k)     # impl Into<String> -> String: the same text
             if name == "into" and not args:
                 # only used for widening u8 -> usize in this crate
                 def ki(a, ta):
@@ -895,7 +907,7 @@ def param_type(ty):
     """rust type text -> ('u8' | ... | ('arr', elem)), mutable?"""
     mut = bool(re.match(r"&\s*mut\b", ty))
     t = re.sub(r"^&\s*(mut\s+)?", "", ty).strip()
-    if t == "str": return "str", mut
+    if t in ("str", "String", "impl AsRef<str>", "impl Into<String>"): return "str", mut
     if t in BITS: return t, mut
     m = re.match(r"\[\s*(\w+)\s*(?:;.*)?\]$", t, flags=re.S)
     if m and m.group(1) in BITS: return ("arr", m.group(1)), mut
